@@ -116,9 +116,10 @@ Definition stamp_kernel (kid : nat) (keys : list (string * nat)) : @kernel cstat
        let ms1 := fold_left (fun s kn => sset s (fst kn)
                                (map (fun j => (sv * 4 + mark) * 8 + j) (zseq 0 (snd kn)))) keys ms in
        let ms2 := sset ms1 "c" [sv * 4 + Z.of_nat kid] in
+       let ms3 := sset ms2 "acc" [scalar ms "acc" + 1] in
        (sv * 4 + Z.of_nat kid,
         upd_slot ks (kid - 1) (fun '(_, n, s) => (sv * 4 + Z.of_nat kid, n + 1, s)),
-        ms2)).
+        ms3)).
 
 Fixpoint mk_kernels (i : nat) (l : list (list (string * nat))) : list (@kernel cstate Z (list kstate)) :=
   match l with
@@ -139,7 +140,7 @@ Definition c_post : key -> nat -> econf -> option (list cpos) -> list kstate -> 
 Definition init_vals (cid : Z) (kn : string * nat) : string * list Z :=
   (fst kn, map (fun j => - (cid * 8 + 8) - j) (zseq 0 (snd kn))).
 Definition c_init_state (cid : Z) (kernels : list (list (string * nat))) (extra : list (string * nat)) : cstate :=
-  [("c"%string, [0]); ("cid"%string, [cid]); ("junk"%string, [77])]
+  [("c"%string, [0]); ("cid"%string, [cid]); ("junk"%string, [77]); ("acc"%string, [0])]
   ++ map (init_vals cid) (concat kernels) ++ map (init_vals cid) extra.
 
 Record cobs := mkCO {
